@@ -27,11 +27,12 @@ type State struct {
 	defers   map[int][]deferred // frame id -> defer stack
 	open     map[loopKey]*openLoop
 	trace    []string
-	panicVal Val            // non-nil while panicking (during deferred calls)
-	calls    map[string]int // number of calls made so far on this path, by source-level callee name
-	dirty    []dirtyRec     // heap class prefixes havocked selectively, with the epoch of the havoc
-	fdepth   int            // number of forks taken on this path
-	choices  string         // branch choices taken so far ("0"/"1" per fork)
+	panicVal Val               // non-nil while panicking (during deferred calls)
+	ghost    map[string]string // ghost arrays (survive heap havoc): "held" : (Array Int Bool)
+	calls    map[string]int    // number of calls made so far on this path, by source-level callee name
+	dirty    []dirtyRec        // heap class prefixes havocked selectively, with the epoch of the havoc
+	fdepth   int               // number of forks taken on this path
+	choices  string            // branch choices taken so far ("0"/"1" per fork)
 }
 
 type dirtyRec struct {
@@ -75,6 +76,10 @@ func (s *State) clone() *State {
 	}
 	n.trace = append([]string(nil), s.trace...)
 	n.dirty = append([]dirtyRec(nil), s.dirty...)
+	n.ghost = make(map[string]string, len(s.ghost))
+	for k, v := range s.ghost {
+		n.ghost[k] = v
+	}
 	n.calls = make(map[string]int, len(s.calls))
 	for k, v := range s.calls {
 		n.calls[k] = v
@@ -871,6 +876,46 @@ func (x *Exec) atReturn(st *State, fr *Frame, in ssa.Instruction) {
 		if !in.Pos().IsValid() {
 			env.pos = x.postEnv(st, fr, nil).pos
 		}
+		ret, ok := in.(*ssa.Return)
+		fromCells := false
+		if !ok {
+			// at the RunDefers preceding the return: results are still in their cells
+			blk := in.Block()
+			for _, bi := range blk.Instrs {
+				if r2, isRet := bi.(*ssa.Return); isRet {
+					ret, ok, fromCells = r2, true, true
+				}
+			}
+		}
+		if ok {
+			res := fr.fn.Signature.Results()
+			for i, r := range ret.Results {
+				var v Val
+				if fromCells {
+					ld, isLoad := r.(*ssa.UnOp)
+					if !isLoad {
+						continue
+					}
+					a, isAlloc := ld.X.(*ssa.Alloc)
+					if !isAlloc || fr.cells[a] == nil {
+						continue
+					}
+					v = st.cellv[fr.cells[a]]
+					if v == nil {
+						continue
+					}
+				} else {
+					v = x.get(fr, r)
+				}
+				env.vars[fmt.Sprintf("result%d", i)] = v
+				if i == 0 {
+					env.vars["result"] = v
+				}
+				if i < res.Len() && res.At(i).Name() != "" && res.At(i).Name() != "_" {
+					env.vars[res.At(i).Name()] = v
+				}
+			}
+		}
 		o := x.oblig(fmt.Sprintf("%s/atreturn#%d", x.curFnName, c.Ord), "at-return", x.propsFor(fr, c), fr.fn.Pos(), "at return: "+c.Text)
 		goal, err := x.evalClause(env, c)
 		if err != nil {
@@ -1088,7 +1133,9 @@ func (x *Exec) instrs(st *State, fr *Frame, b *ssa.BasicBlock, i int, prev *ssa.
 				continue
 			}
 			x.safety(st, fr, in, "nilmap", "(not (= "+m.Ref+" 0))")
-			x.frameCheckRef(st, fr, in, m.Ref, "map")
+			if !x.classAllowed("M|" + typeKey(m.Key) + "|" + typeKey(m.Elt)) {
+				x.frameCheckRef(st, fr, in, m.Ref, "map")
+			}
 			x.mapStore(st, m, x.get(fr, in.Key), x.get(fr, in.Value))
 		case *ssa.MakeClosure:
 			fn := in.Fn.(*ssa.Function)
